@@ -55,6 +55,14 @@ func (c *Ctx) chk(class string, l int64, s string) (impl string, specOK bool) {
 		return
 	}
 	if !sameChk(impl, sp) {
+		if impl == "ok" && ws == "1" {
+			// the U+0020-separated tokens are not a valid sentence but the whitespace-separated ones are
+			// (doubled/leading/trailing or exotic white space): C03 allows acceptance; it is only a
+			// deviation from the model, not from the specification
+			c.rep.stale(Violation{Kind: "impl≠model", Class: class, Op: op, Impl: impl, Model: m, Spec: sp + " ws=1",
+				Detail: "accepted a sentence that is valid only when split at arbitrary white space"})
+			return
+		}
 		c.rep.violate(Violation{Kind: "impl≠spec", Class: class, Op: op, Impl: impl, Model: m, Spec: sp})
 	} else if !sameChk(impl, m) {
 		c.rep.stale(Violation{Kind: "impl≠model", Class: class, Op: op, Impl: impl, Model: m, Spec: sp})
